@@ -202,6 +202,20 @@ Section Tree.
     all: apply attr_rel_one; assumption.
   Qed.
 
+  Lemma den_wrap var gi ei :
+    flat_map den gi = ei -> forallb (fun k => attrs_present (item_of c k)) gi = true ->
+    flat_map den (g_wrap var gi) = e_wrap var ei
+    /\ forallb (fun k => attrs_present (item_of c k)) (g_wrap var gi) = true.
+  Proof.
+    intros E1 E2. unfold g_wrap, e_wrap. destruct (v_wrapper_qname var) as [[|ch w]|]; try (split; assumption).
+    split.
+    - cbn [flat_map]. rewrite app_nil_r. unfold den at 1. cbn [item_of map].
+      rewrite (denote_node _ [] _ [] eq_refl). rewrite flat_map_map. fold den. rewrite E1.
+      unfold nil_filter. destruct (existsb kid_content _); reflexivity.
+    - cbn [forallb]. rewrite andb_true_r. unfold attrs_present, t_attrs_present. cbn [item_of all_nodes map forallb andb].
+      rewrite forallb_map'. exact E2.
+  Qed.
+
   (* ---------------------------------------------------------------- one object *)
   Lemma den_obj : forall n cl o qn,
     wfr cl -> fits n cl o = true ->
@@ -252,7 +266,12 @@ Section Tree.
       assert (Hper : forall var, In var (get_element_vars m) ->
                 flat_map den (g_field c u (gobj n) var (field_of fs var)) = e_field c u (eobj n) var (field_of fs var)
                 /\ forallb (fun k => attrs_present (item_of c k)) (g_field c u (gobj n) var (field_of fs var)) = true).
-      { intros var Hvar. set (x := field_of fs var).
+      { intros var Hvar.
+        cut (flat_map den (g_items c u (gobj n) var (field_of fs var)) = e_items c u (eobj n) var (field_of fs var)
+             /\ forallb (fun k => attrs_present (item_of c k)) (g_items c u (gobj n) var (field_of fs var)) = true).
+        { intros [E1 E2]. unfold g_field, e_field. destruct (field_of fs var) eqn:Ex; try (split; reflexivity);
+            rewrite <- Ex in *; apply (den_wrap var _ _ E1 E2). }
+        set (x := field_of fs var).
         assert (Hpr : forall y, enc_shape (v_format var) y ->
                   flat_map den [g_prim c u var y] = [e_prim c u var y]
                   /\ forallb (fun k => attrs_present (item_of c k)) [g_prim c u var y] = true).
@@ -261,7 +280,7 @@ Section Tree.
         - destruct (wf_elem_inv var Hwe) as [Hk [Hc Hty]].
           pose proof (Hfe _ var Hine (or_introl eq_refl)) as Hfv. fold x in Hfv.
           assert (Hkt : v_is KText var = false) by (destruct Hk as [_ [Hkt _]]; exact Hkt).
-          unfold g_field, e_field. rewrite Hkt.
+          unfold g_items, e_items. rewrite Hkt.
           destruct Hty as [[k [Htys [Hcl Htf]]]|[t [Htys [Hst Hcl]]]].
           + rewrite Htf. unfold Fits.fits_elem in Hfv. rewrite Htf in Hfv.
             assert (Hobj : forall y, fits_item c u ok (fits n) var y = true ->
@@ -318,7 +337,7 @@ Section Tree.
                  all: destruct (fits_item_simple c u ok _ var t _ Htys Hst Hfv) as [p0 [Ep Hp]]; try discriminate Ep.
                  inversion Ep; subst. apply (Hpr (VP p0)). eapply es_leaf; exact Hp.
         - destruct (wf_text_inv var Hwt) as [Hwtk [Hwt0 [t [Htys Hwtd]]]].
-          unfold g_field, e_field. rewrite Hwtk.
+          unfold g_items, e_items. rewrite Hwtk.
           rewrite Htx in Hft. fold x in Hft. unfold Fits.fits_text, vtype in Hft. rewrite Htys in Hft.
           assert (Hsh : x <> VNone -> enc_shape (v_format var) x).
           { intros Hx. destruct (v_tokens_factory var).
